@@ -169,6 +169,8 @@ struct Ctx {
     wl: Workload,
     relations: qrlew::hierarchy::Hierarchy<Arc<Relation>>,
     refs: Vec<Reference>,
+    relations_alt: Option<qrlew::hierarchy::Hierarchy<Arc<Relation>>>,
+    refs_alt: Vec<Reference>,
     shared: Arc<Mutex<Shared>>,
 }
 
@@ -180,7 +182,11 @@ fn violation(ctx: &Ctx, invariant: &str, class: &str, detail: String, witness: s
 }
 
 fn check_against_ref(ctx: &Ctx, who: &str, qi: usize, c: &Compiled, r: &Option<Relation>) {
-    let rf = &ctx.refs[qi];
+    check_against(ctx, who, qi, c, r, false)
+}
+
+fn check_against(ctx: &Ctx, who: &str, qi: usize, c: &Compiled, r: &Option<Relation>, alt: bool) {
+    let rf = if alt { &ctx.refs_alt[qi] } else { &ctx.refs[qi] };
     let q = &ctx.wl.queries[qi];
     if c.ok != rf.c.ok {
         violation(
@@ -253,6 +259,14 @@ fn exec_op(ctx: &Arc<Ctx>, who: &str, op: &Op) {
             let (c, r) = compile(&ctx.relations, &ctx.wl.queries[*qi]);
             event(ctx, format!("{} parse q{} ok={} h={:016x}", who, qi, c.ok, hash64(&format!("{}|{}|{}", canonicalise(&c.display), canonicalise(&c.sql), c.schema.len()))));
             check_against_ref(ctx, who, *qi, &c, &r);
+        }
+        Op::ParseAlt(qi) => {
+            if let Some(rel_alt) = &ctx.relations_alt {
+                let (c, r) = compile(rel_alt, &ctx.wl.queries[*qi]);
+                fault(ctx, "second_catalogue");
+                event(ctx, format!("{} parse_alt q{} ok={} h={:016x}", who, qi, c.ok, hash64(&format!("{}|{}|{}", canonicalise(&c.display), canonicalise(&c.sql), c.schema.len()))));
+                check_against(ctx, who, *qi, &c, &r, true);
+            }
         }
         Op::Render(qi) => {
             if let Some(r) = &ctx.refs[*qi].relation {
@@ -437,10 +451,14 @@ fn reparse_check(ctx: &Ctx, who: &str, qi: usize, r: &Relation, text: &str, c2: 
 /// schedule-independent part of the fixpoint sentence (re-parse, schema, semantics).
 type RefOut = (qrlew::hierarchy::Hierarchy<Arc<Relation>>, Vec<Reference>, Vec<Violation>, BTreeMap<String, u64>);
 
-fn reference_pass(wl: &Workload) -> RefOut {
+fn reference_pass(wl: &Workload, alt: bool) -> RefOut {
     let out: Arc<Mutex<Option<RefOut>>> = Arc::new(Mutex::new(None));
     let out2 = out.clone();
-    let wl2 = wl.clone();
+    let mut wl2 = wl.clone();
+    if alt {
+        // the second catalogue gets its own quiescent pass (a separate simulated execution)
+        wl2.sc = wl2.sc_alt.clone().expect("alt catalogue");
+    }
     let mut cfg = shuttle::Config::new();
     cfg.stack_size = 256 << 20;
     cfg.failure_persistence = shuttle::FailurePersistence::None;
@@ -461,7 +479,7 @@ fn reference_pass(wl: &Workload) -> RefOut {
                 relation: r,
             });
         }
-        let ctx = Ctx { wl: wl2.clone(), relations: rel2.clone(), refs: refs.clone(), shared: Arc::new(Mutex::new(Shared::default())) };
+        let ctx = Ctx { wl: wl2.clone(), relations: rel2.clone(), refs: refs.clone(), relations_alt: None, refs_alt: vec![], shared: Arc::new(Mutex::new(Shared::default())) };
         // determinism inside the quiescent pass itself: a second parse of every query
         for (qi, q) in wl2.queries.iter().enumerate() {
             let (c, r) = compile(&rel2, q);
@@ -514,16 +532,26 @@ fn run_one(wl: Workload, keep: bool) -> RunRecord {
     let handle = std::thread::Builder::new()
         .stack_size(512 << 20)
         .spawn(move || {
-            let (relations, refs, mut violations, mut probes) = reference_pass(&wl);
+            let (relations, refs, mut violations, mut probes) = reference_pass(&wl, false);
+            let (relations_alt, refs_alt) = if wl.sc_alt.is_some() {
+                let (ra, fa, va, pa) = reference_pass(&wl, true);
+                violations.extend(va);
+                for (k, v) in pa {
+                    *probes.entry(k).or_default() += v;
+                }
+                (Some(ra), fa)
+            } else {
+                (None, vec![])
+            };
             let ref_digest = {
                 let mut h = String::new();
-                for r in &refs {
+                for r in refs.iter().chain(refs_alt.iter()) {
                     h.push_str(&format!("{}|{}|{}|{}\n", r.c.ok, r.canon_display, r.canon_sql, canonicalise(&r.c.schema)));
                 }
                 format!("{:016x}", hash64(&h))
             };
             let shared = Arc::new(Mutex::new(Shared::default()));
-            let ctx = Arc::new(Ctx { wl: wl.clone(), relations, refs, shared: shared.clone() });
+            let ctx = Arc::new(Ctx { wl: wl.clone(), relations, refs, relations_alt, refs_alt, shared: shared.clone() });
             let mut cfg = shuttle::Config::new();
             cfg.stack_size = 256 << 20;
             cfg.failure_persistence = shuttle::FailurePersistence::None;
